@@ -4,6 +4,7 @@ import zlib
 
 _L = threading.Lock()
 _T: dict = {}
+YIELD_IN_BOOL = [0]  # seconds to sleep inside Sym.__bool__ (0 = off)
 
 
 def _freeze(x):
@@ -44,6 +45,11 @@ class Sym:
         return self.h
 
     def __bool__(self):
+        if YIELD_IN_BOOL[0]:
+            # concurrency workloads: evaluating the truthiness of a value (an activation flag) is a pre-emption point
+            import time
+
+            time.sleep(YIELD_IN_BOOL[0])
         return bool(self.h & 1)
 
     def __deepcopy__(self, memo):
